@@ -5,6 +5,8 @@
 package chainsim
 
 import (
+	"bytes"
+	"os"
 	"errors"
 	"fmt"
 	"io"
@@ -29,10 +31,20 @@ import (
 // process dies at that point (DESIGN §2.4).
 type CrashStop struct{ Msg string }
 
+// NodeLog collects node log lines when VERIF_NODELOG is set (debugging aid only).
+var NodeLog bytes.Buffer
+
 func quietLogger() *log.Logger {
 	l := logrus.New()
 	l.SetOutput(io.Discard)
 	l.SetLevel(logrus.FatalLevel)
+	if lvl := os.Getenv("VERIF_NODELOG"); lvl != "" {
+		if pl, err := logrus.ParseLevel(lvl); err == nil {
+			l.SetLevel(pl)
+			l.SetOutput(&NodeLog)
+			l.SetFormatter(&logrus.TextFormatter{DisableTimestamp: true, DisableColors: true})
+		}
+	}
 	l.ExitFunc = func(int) { panic(CrashStop{"logger.Fatal"}) }
 	return l
 }
@@ -193,7 +205,7 @@ func StartNode(cfg NodeConfig) (*Node, error) {
 		}
 		eng := blake3pow.New(powConfig, nil, false, n.Logger)
 		eng.SetThreads(-1)
-		engines := []consensus.Engine{eng}
+		engines := []consensus.Engine{eng, eng} // slot 1 (Kawpow) is dereferenced unconditionally by BodyDb.WriteBlock when IndexAddressUtxos is on
 		mcfg := &core.Config{
 			QuaiCoinbase:          cfg.QuaiCoinbase,
 			QiCoinbase:            cfg.QiCoinbase,
